@@ -31,6 +31,8 @@ type checkRun struct {
 	t0        time.Time
 	seed      int
 	noNative  bool
+	race      bool
+	raceSeen  map[string]string // package dir -> first DATA RACE report of the native run
 }
 
 type knownFinding struct {
@@ -286,6 +288,18 @@ func (r *checkRun) execute() int {
 			case c.v.Label == "no-panic":
 				confirmed = nr.Panic != ""
 				detail = nr.Panic
+			case c.v.Label == "data-race":
+				// the native race report must name one of the functions of the engine's report
+				txt := r.raceSeen[c.h.dir]
+				for _, w := range strings.Fields(c.v.Detail) {
+					if i := strings.LastIndex(w, "."); i > 0 && i+1 < len(w) && strings.Contains(w, "/") {
+						fn := strings.Trim(w[i+1:], "()$0123456789")
+						if len(fn) > 3 && strings.Contains(txt, fn+"(") {
+							confirmed = true
+						}
+					}
+				}
+				detail = "native -race: " + firstLine(r.raceSeen[c.h.dir])
 			case c.v.Label == "goroutine-leak" || c.v.Label == "deadlock":
 				confirmed = nr.Leaked > 0 || nr.Panic != ""
 				detail = fmt.Sprintf("leaked=%d %s", nr.Leaked, nr.Panic)
@@ -532,7 +546,20 @@ func (r *checkRun) runNative(casesByDir map[string][]vtCase) (map[string]vtResul
 		outF := filepath.Join(tmp, "out_"+strings.ReplaceAll(dir, "/", "_")+".json")
 		writeJSON(in, cases)
 		env := append(goEnv(), "VT_REPLAY="+in, "VT_OUT="+outF)
-		txt, err := runCmd(repoDir, env, 20*time.Minute, "go", "test", "-tags", "verif", "-vet=off", "-count=1", "-overlay", ovFile, "-run", "TestVTReplay$", "./"+dir)
+		args := []string{"test", "-tags", "verif", "-vet=off", "-count=1", "-overlay", ovFile, "-run", "TestVTReplay$", "-timeout", "30m"}
+		if r.race {
+			args = append(args, "-race")
+		}
+		args = append(args, "./"+dir)
+		txt, err := runCmd(repoDir, env, 40*time.Minute, "go", args...)
+		if r.race {
+			if i := strings.Index(txt, "WARNING: DATA RACE"); i >= 0 {
+				if r.raceSeen == nil {
+					r.raceSeen = map[string]string{}
+				}
+				r.raceSeen[dir] = trimTo(txt[i:], 2500)
+			}
+		}
 		b, rerr := os.ReadFile(outF)
 		if rerr != nil {
 			return nil, fmt.Errorf("native run in %s produced no results: %v\n%s", dir, err, trimTo(txt, 3000))
@@ -560,4 +587,12 @@ func lastN(ss []string, n int) []string {
 		return ss[len(ss)-n:]
 	}
 	return ss
+}
+
+func firstLine(s string) string {
+	ls := strings.Split(s, "\n")
+	if len(ls) > 12 {
+		ls = ls[:12]
+	}
+	return strings.Join(ls, " | ")
 }
